@@ -92,6 +92,14 @@ def task():
             allowed = {"_compiled": {"Ovld.__init__", "Ovld.compile"}, "map": {"Ovld.compile"}}
             badw = {k: sorted(v - allowed[k]) for k, v in writers.items() if v - allowed[k]}
             res.obligations.append(dict(name="frames.rebuild/built_flag_and_table_are_written_only_by_init_and_compile", status="proved" if not badw and writers.get("_compiled") else "refuted", time=0.0, model=str(badw) if badw else None, note="ast-frame", path="", goal=f"writers: { {k: sorted(v) for k, v in writers.items()} }"[:300]))
+            # Ovld._update (rebuild of a function in use and of its linked descendants) is reached only from a change of the method
+            # set: register / unregister, and from _update itself for the children
+            upd = []
+            for n in ast.walk(source.module("core").tree):
+                if isinstance(n, ast.Call) and isinstance(n.func, ast.Attribute) and n.func.attr == "_update":
+                    upd.append(_enclosing(source.module("core").tree, n))
+            bad_upd = sorted(set(upd) - {"Ovld.register", "Ovld._register", "Ovld.unregister", "Ovld._update"})
+            res.obligations.append(dict(name="frames.rebuild/update_is_triggered_only_by_a_change_of_the_method_set", status="proved" if not bad_upd and upd else "refuted", time=0.0, model=(f"_update called from {bad_upd}" if bad_upd else None), note="ast-frame", path="", goal=f"call sites of _update: {sorted(set(upd))}"))
             # the other modules never rebuild a function
             others = []
             for m in ("typemap", "recode", "mro", "types", "dependent", "utils", "abc"):
